@@ -12,6 +12,7 @@ import VC2.Model.SerdesDriver
 import VC2.Model.PictureDriver
 import VC2.Model.SliceFitDriver
 import VC2.Model.SeqHeaderDriver
+import VC2.Model.SlicePadDriver
 open VC2 VC2.Gen
 
 def parseInts (ws : List String) : Option (List Int) :=
@@ -47,6 +48,7 @@ def step (line : String) : String :=
   | "fr" :: rest => VC2.Model.Picture.handleFr rest
   | "sl" :: rest => VC2.Model.SliceFit.handleSl rest
   | "so" :: rest => VC2.Model.SeqHeader.handleSo rest
+  | "sp" :: rest => VC2.Model.SlicePad.handleSp rest
   | "pg" :: rest => VC2.Model.Picture.handlePg rest
   | "dc" :: rest => VC2.Model.Picture.handleDc rest
   | "ff" :: rest => VC2.Model.FileFormat.handleFf rest
